@@ -158,11 +158,18 @@ func (f *vFsm) observe() vM {
 	for _, g := range gs {
 		coord, ep := g.GetCoordinator()
 		members := []vM{}
-		mm := g.GetMembers()
+		// the state itself (member.streams), not the accessor the snapshot is built from: an accessor
+		// that drops something would hide the loss from both sides of the comparison
 		names := []string{}
-		for m := range mm {
+		mm := map[string][]string{}
+		g.mu.RLock()
+		for m, cons := range g.members {
 			names = append(names, m)
+			for s := range cons.streams {
+				mm[m] = append(mm[m], s)
+			}
 		}
+		g.mu.RUnlock()
 		sort.Strings(names)
 		g.mu.RLock()
 		for _, m := range names {
@@ -407,6 +414,9 @@ func vC06FromDesc(d vM, idx uint64) *proto.RaftLog {
 	return &proto.RaftLog{Op: proto.Op_PUBLISH_ACTIVITY, PublishActivityOp: &proto.PublishActivityOp{RaftIndex: idx - 1}}
 }
 
+var vC06GroupPrefix = []vM{{"op": "create", "s": "s0", "n": 1, "replicas": []string{"a", "b"}}, {"op": "gcreate", "g": "g0", "coord": "a", "c": "c0", "ss": []string{"s0"}},
+	{"op": "join", "g": "g0", "c": "c1", "ss": []string{"s0"}}}
+
 type vC06Script struct {
 	ops      []vM
 	restarts [][2]int // (snapshot after i, stopped after m)
@@ -427,6 +437,11 @@ var vC06Corpus = []vC06Script{
 	{ops: []vM{{"op": "create", "s": "s0", "n": 2, "replicas": []string{"a"}}, {"op": "create", "s": "s1", "n": 2, "replicas": []string{"b"}},
 		{"op": "gcreate", "g": "g0", "coord": "a", "c": "c0", "ss": []string{"s0"}}, {"op": "join", "g": "g0", "c": "c1", "ss": []string{"s1"}},
 		{"op": "leave", "g": "g0", "c": "c0"}, {"op": "delete", "s": "s0"}}, restarts: [][2]int{{5, 6}, {5, 5}, {0, 6}}},
+	// members that own nothing at snapshot time (one partition, three members): their subscriptions must be in the
+	// snapshot, or they never get their share once the owner leaves
+	{ops: []vM{{"op": "create", "s": "s0", "n": 1, "replicas": []string{"a"}}, {"op": "gcreate", "g": "g0", "coord": "a", "c": "c0", "ss": []string{"s0"}},
+		{"op": "join", "g": "g0", "c": "c1", "ss": []string{"s0"}}, {"op": "join", "g": "g0", "c": "c2", "ss": []string{"s0"}},
+		{"op": "leave", "g": "g0", "c": "c0"}}, restarts: [][2]int{{4, 4}, {4, 5}, {3, 5}, {0, 5}}},
 	// delete and re-create while the server is down
 	{ops: []vM{{"op": "create", "s": "s2", "n": 1, "replicas": []string{"a"}}, {"op": "delete", "s": "s2"}, {"op": "create", "s": "s2", "n": 2, "replicas": []string{"b"}}}, restarts: [][2]int{{0, 1}, {1, 1}, {0, 3}}},
 }
@@ -561,6 +576,10 @@ func TestVerifC06(t *testing.T) {
 			var desc vM
 			if script != nil {
 				desc = script.ops[i-1]
+				op = vC06FromDesc(desc, uint64(i))
+			} else if pre := vC06GroupPrefix; id%5 == 0 && i <= len(pre) && nops >= len(pre) {
+				// every fifth history starts with a group that has more members than its stream has partitions
+				desc = pre[i-1]
 				op = vC06FromDesc(desc, uint64(i))
 			} else {
 				op, desc = vC06Gen(r, A, uint64(i))
